@@ -126,6 +126,10 @@ def run(c):
         require(k.shape == shape, "peak_wavenumber_shape", f"{k.shape} vs {shape}")
         k = k.reshape(n)
         gi0 = _arr(spec.peak_index(), dtype=np.int64).reshape(n)
+        # the banded queries above must not have changed what the object reports for the full range
+        strict0 = ~amb0 if two_d else np.ones(n, dtype=bool)
+        require((gi0[strict0] == idx0[strict0]).all(), "peak_index_full_range_after_banded_queries",
+                lambda: f"earlier band=[{fmin!r},{fmax!r}) got={gi0} ref={idx0}")
         dep = np.where(np.isnan(a["depth"]), np.inf, a["depth"])
         for i in range(n):
             w = 2 * math.pi * f[gi0[i]]
